@@ -24,5 +24,23 @@ CLAIMED = {
   'note': 'As C01. Modelled value kinds: None, bool, int, str, objects of a class hierarchy, other Python values; data types EInt/EString/EBoolean (bool conforms to EInt exactly as isinstance does). Enumerations, the other built-in data types, command execution and XMI/JSON load paths are exercised by other checks (C06, C08, C09, C17), not by this model.',
   'technique': 'Lean 4 proof (invariant Typed + rejection leaves the state identical) + differential correspondence + independent oracle',
  },
+ 'C07': {
+  'text': 'Lean theorems C07_no_dangling / C07_deleted_clean / C07_frame / C07_inv: after delete(x, recursive) in any state satisfying the invariants (every reachable state), no object holds a deleted object in any feature, deleted objects hold no reference and have no container, every survivor keeps each reference value in the same order minus the deleted objects, attributes / resources / root lists untouched, containers kept unless deleted. List-level (order-preserving) characterisation of delete as a filter. The excluded corner (a list-like reference holding the object twice) is stated as a kernel-checked counterexample and is the recorded finding F-C07-1. Tie: after generated histories every object is deleted in turn (recursive and not) on the real code and on the model, full state compared; oracle scans all features against a pre-delete snapshot.',
+  'design_ref': 'DESIGN.md section 4 C07',
+  'note': 'The model finds referrers by scanning; the code finds them through _inverse_rels and opposite ends — that the bookkeeping is complete along every history is established by the correspondence, not by a theorem. Hypothesis Nd (no reference slot holds a value twice). delete() leaving the object in its resource root list is not judged.',
+  'technique': 'Lean 4 proof (list-level characterisation of delete over folds of unlinkRaw) + differential correspondence (delete of every object after every history) + independent oracle; known finding F-C07-1',
+ },
+ 'C11': {
+  'text': 'Lean theorems C11_resolve_frag / C11_injective / C11_reachable: in every state satisfying the invariants (hence after every history), for every object whose container chain ends at a root of the resource, Resource.resolve applied to its eURIFragment returns that object, at any depth; fragments are injective. Tie: after every call of containment-heavy histories (collections of 2-9 children, insert/pop/remove/move at all positions, several roots and resources) the real fragment text of every object is compared with the rendered model path and fed to the real resolve.',
+  'design_ref': 'DESIGN.md section 4 C11',
+  'note': 'Positional fragments of instances. The index in a fragment is what the collection reports (index()); that this is the iteration position is C04. The string layer (render/parse of a path) is compared, not proved. Name-based fragments of metamodel elements and id/uuid lookups are checked under C08/C10.',
+  'technique': 'Lean 4 proof (resolve o frag = id by induction on the container chain, from Own/Card/ResOK) + differential correspondence on fragment strings + independent oracle',
+ },
+ 'C19': {
+  'text': 'Lean theorems C19_contents / C19_contents_container / C19_allcontents / C19_root / C19_reachable: eContents is exactly the content of the containment references = the objects naming o as container; eAllContents yields exactly the objects some k>=1-th container of which is o; eRoot is the end of the container chain. Tie: after every call of generated histories all views of all objects on the real code vs the model and vs an independent recomputation from primary state; eGet by name / feature / attribute identical; eAllSuperTypes, eAllStructuralFeatures, eAllReferences, eAllAttributes, findEStructuralFeature vs the declared hierarchy for every generated metamodel.',
+  'design_ref': 'DESIGN.md section 4 C19',
+  'note': 'Order of eContents/eAllContents is not claimed (the code iterates a set of references). The metamodel-level views are checked by the oracle on the real code here; their Lean model is with C12.',
+  'technique': 'Lean 4 proof (views characterised through the ownership invariant) + differential correspondence + independent oracle',
+ },
 }
 NOT_APPLICABLE = {}
